@@ -65,7 +65,7 @@ PLOT_CASES = [dict(swap=w, dc=d, sample=s, ax=a) for w in (False, True) for d in
              [dict(swap=False, dc="none", sample=False, ax="new")]
 
 
-@contract(P + "plot_2D_contour", ["C20", "C19"], PLOT_CASES, name="plot_2D_contour")
+@contract(P + "plot_2D_contour", ["C20", "C19", "C17"], PLOT_CASES, name="plot_2D_contour")
 class Plot2D(Contract):
     """exactly one line through the contour's points in order with the first point repeated at the end, axes
     exchanged iff swap_axis; sample and design conditions scattered as supplied / as computed"""
